@@ -953,7 +953,7 @@ def _apply_proj(e, proj, fn, seen, depth):
             else:
                 e = ("opaque", e)
         elif e[0] == "phi" and isinstance(p, dict) and ("as" in p or "f" in p) and not any(a[0] == "partial" for a in e[1]) \
-                and any(a[0] == "agg" or (a[0] == "as" and a[1][0] == "agg") for a in e[1]):
+                and any(a[0] in ("agg", "tuple") or (a[0] == "as" and a[1][0] == "agg") for a in e[1]):
             # a join of values built in place (`Some(x)` on one edge, `None` on the other): project each alternative,
             # dropping those that were built as another variant than the one read
             alts = []
@@ -2150,7 +2150,9 @@ def _vec_elem(ty):
         elif ty[k] == "," and depth == 1:
             break
         k += 1
-    return ty[j:k].strip() if depth == 0 or (k < len(ty) and ty[k] == ",") else "?"
+    if depth == 0:
+        return ty[j:k - 1].strip()
+    return ty[j:k].strip() if (k < len(ty) and ty[k] == ",") else "?"
 
 
 def _as_copy(op):
